@@ -316,7 +316,7 @@ class StateVarStream(Stream):
     coqc_timeout = 600
 
     def budget(self, tier):
-        return 320 if tier == "quick" else 4000
+        return 320 if tier == "quick" else 3000
 
     def prelude(self, ctx, findings, witness_terms):
         return host_prelude() + "\n" + cfg_prelude(
